@@ -80,6 +80,28 @@ fn parquet(ctx: &Ctx) -> R {
     run_all(ctx, &PqFmt { wl, cfg, flush_after })
 }
 
+/// Values large enough that single `write_all` calls exceed std's 8 KiB `BufWriter` capacity (the
+/// buffer is then bypassed and the sink sees the writer's own call pattern).
+fn parquet_big(ctx: &Ctx) -> R {
+    let mut p = pq_profile_basic(ctx);
+    p.leaves = vec![gen::types_api::Leaf::Utf8, gen::types_api::Leaf::Binary, gen::types_api::Leaf::LargeUtf8, gen::types_api::Leaf::I64, gen::types_api::Leaf::Utf8View];
+    p.max_str_len = 6000;
+    p.long_str_rate = 5;
+    p.max_depth = 1;
+    p.max_cols = 2;
+    let wl = gen_workload(ctx, &p, 2, 40, false);
+    let mut cfg = PqCfg::gen(ctx);
+    cfg.data_page_limit = 1 << 20;
+    cfg.dict_page_limit = 1 << 20;
+    cfg.page_rows = 20000;
+    cfg.rg_rows = 1 << 20;
+    cfg.write_batch = 1024;
+    if !ctx.chance(1, 4, "pqbig.compressed") {
+        cfg.codec = 0;
+    }
+    run_all(ctx, &PqFmt { wl, cfg, flush_after: vec![] })
+}
+
 fn main() {
     simcore::main_with(
         "C18",
@@ -92,6 +114,7 @@ fn main() {
             Scenario { name: "avro_ocf", runs_quick: 250, runs_thorough: 6000, f: avro_ocf },
             Scenario { name: "avro_soe", runs_quick: 150, runs_thorough: 3000, f: avro_soe },
             Scenario { name: "parquet", runs_quick: 150, runs_thorough: 4000, f: parquet },
+            Scenario { name: "parquet_big", runs_quick: 40, runs_thorough: 800, f: parquet_big },
         ],
     );
 }
